@@ -52,7 +52,7 @@ Definition owned_of (p : pc) : option Z :=
 Definition qos_of (p : pc) : option Z :=
   match p with
   | PA_xchg q _ | PA_link _ _ q _ | PA_probe q | PA_wake q _ | PR_bctail q | PR_bcsusp q | PR_bchead q | PR_cbc q _ | PR_bcxor q
-  | PR_probe q | PR_wake q => Some q
+  | PA_oprobe q | PA_owake q => Some q
   | _ => None
   end.
 
